@@ -155,7 +155,18 @@ def lex_comment(
     then returns what they return.
     """
 
-    if char in c_info["multi_chars"]:
+    if (
+        preserve["state"] == Preserve.COMMENT
+        and preserve["end"] in c_info["single_comments"].values()
+    ):
+        # Inside a single-character comment (e.g. '#' to end-of-line)
+        # the characters of the multi-character comment delimiters have
+        # no meaning: they must neither open a '/*' comment nor close
+        # the comment we are in.
+        return lex_singlechar_comments(
+            char, lexeme, preserve, c_info["single_comments"]
+        )
+    elif char in c_info["multi_chars"]:
         return lex_multichar_comments(
             char,
             prev_char,
